@@ -8,7 +8,8 @@ from .. import core
 from ..core import SKIP
 
 ID = "C09"
-RULE = ("(v5: + arrays must not follow later in-place edits of their input tables nor of the arrays/records they handed out "
+RULE = ("(v6: + genomes past 2^31 / 2^32 / 2^33 bases (sparse observations), narrow value dtypes (uint8, int8, int16, float16, float32) "
+        "with python and NumPy scalar operands on either side, dtype and values compared with dense NumPy; v5: + arrays must not follow later in-place edits of their input tables nor of the arrays/records they handed out "
         "(gap-free genome-wide bedGraphs included), two genomes alive at once, query sequences on one GenomicIntervals object "
         "(merged/sorted/clip/... then pileup and mask again), every input table byte-compared after the call; v4: + constructor->to_array for float64/32/16,int64,bool, to_bedgraph, t[intervals]/t[locations], from_dict/from_stream, "
         "read_track from files (memory and streamed), Genome construction variants; v3: genomes with ignored '_' contigs of non-zero size; v2: pileup leaves, t[mask], float trees on the Lean model) exhaustive: every sorted non-overlapping bedGraph of <= 3 records on a contig of size 1..S (quick S<=5, thorough S<=7; "
@@ -21,7 +22,7 @@ RULE = ("(v5: + arrays must not follow later in-place edits of their input table
         "flags are not all default, or >= 2 chromosomes, or expression depth >= 2")
 EXHAUSTIVE = {"quick": True, "thorough": True}
 PARALLEL = 16
-MODEL_OPS = {"rle_to_array", "extract", "track_from_dict", "rle_bedgraph", "from_intervals_arr", "track", "geo_track", "expr", "expr_f"}
+MODEL_OPS = {"big", "rle_to_array", "extract", "track_from_dict", "rle_bedgraph", "from_intervals_arr", "track", "geo_track", "expr", "expr_f"}
 ASSUMPTIONS = [
     "bedGraph records are start < stop, sorted, non-overlapping (stop[i] <= start[i+1]) in genome order, last stop <= size; "
     "from_intervals(values=array) additionally needs stop[i] < start[i+1] (the RunLengthArray constructor rejects empty runs)",
@@ -264,6 +265,39 @@ def cases(tier, rng):
             yield {"op": "alias", "sizes": sizes, "recs": recs, "kind": kind, "entry": entry}
         ivs = _rand_ivs(rng, sizes)
         yield {"op": "alias", "sizes": sizes, "recs": ivs, "kind": "int", "entry": rng.choice(["mask", "pileup"])}
+    # 2d. genomes past the 32-bit constants (2^31, 2^32, 2^33): run-length encoded, nothing dense is allocated
+    for _ in range(300 if big else 60):
+        nch = rng.choice([2, 3, 5])
+        sizes = [rng.choice([2 ** 31 - 1, 2 ** 31 + 3, 2 ** 32 - 5, 2 ** 32, 2 ** 32 + 9, 2 ** 33 + 1, 7, 1000]) for _ in range(nch)]
+        recs, ivs = [], []
+        for cidx, sz in enumerate(sizes):
+            pts = set()
+            for base in (0, sz // 2, sz - 12, 2 ** 31 - 4, 2 ** 32 - 4):
+                if 0 <= base and base + 10 <= sz and rng.random() < 0.5:
+                    pts.update(rng.sample(range(base, base + 10), 2))
+            pts = sorted(pts)
+            pts = pts[:len(pts) // 2 * 2]
+            for a, b in zip(pts[0::2], pts[1::2]):
+                recs.append([cidx, a, b, rng.choice([1, 2, 5, -3])])
+                ivs.append([cidx, max(0, a - 2), min(sz, b + 3)])
+        yield {"op": "big", "sizes": sizes, "recs": recs, "ivs": ivs[:6], "kind": "int"}
+    # 2e. narrow value dtypes with python / NumPy scalar operands on either side (dtype and values as dense NumPy gives them)
+    SC = [("py", 1), ("py", 200), ("py", -3), ("py", 0.5), ("int64", 200), ("int64", 3), ("int64", -50), ("float64", 0.1), ("float64", 3.0),
+          ("uint8", 250), ("int8", -100), ("float32", 0.1), ("float16", 0.1), ("elem", 250), ("int16", 30000)]
+    for _ in range(500 if big else 100):
+        sizes = [rng.choice([3, 6, 9]) for _ in range(rng.choice([1, 2]))]
+        dt = rng.choice(["uint8", "int8", "int16", "float32", "float16", "int64", "float64"])
+        recs = _rand_track(rng, sizes, "int")
+        for r in recs:
+            r[3] = rng.choice([3, 100, 60, 127, 1, 0] + ([250] if dt == "uint8" else []))
+        if rng.random() < 0.3 and recs:                       # last record up to the very end of the genome
+            recs[-1] = [len(sizes) - 1, min(recs[-1][1], sizes[-1] - 1) if recs[-1][0] == len(sizes) - 1 else 0, sizes[-1], recs[-1][3]]
+            recs = [r for r in recs[:-1] if r[0] < len(sizes) - 1 or r[2] <= recs[-1][1]] + [recs[-1]]
+        ops = [[rng.choice(["add", "sub", "mul", "lt", "gt", "eq"]), rng.choice(["l", "r"])] + list(rng.choice(SC)) for _ in range(3)]
+        for o in ops:      # `np.int64(3) < track`: NumPy hands the scalar over as a 0-d array, which the engine rejects (loudly)
+            if o[0] in CMP and o[2] != "py":
+                o[1] = "r"
+        yield {"op": "narrow", "sizes": sizes, "recs": recs, "dtype": dt, "ops": ops}
     # 2c. queries on one GenomicIntervals object in a row (nested / duplicated intervals included)
     for _ in range(600 if big else 120):
         sizes = [rng.choice([3, 6, 12]) for _ in range(rng.choice([1, 2, 3]))]
@@ -359,6 +393,10 @@ def nontrivial(c):
         return bool(r) and (r[0][0] > 0 or (c["size"] is not None and r[-1][1] < c["size"])
                             or any(r[i][1] != r[i + 1][0] for i in range(len(r) - 1)))
     if op == "alias":
+        return len(c["recs"]) >= 1
+    if op == "big":
+        return sum(c["sizes"]) >= 2 ** 32 and len(c["recs"]) >= 1
+    if op == "narrow":
         return len(c["recs"]) >= 1
     if op == "gi_seq":
         return len(c["recs"]) >= 2 and any(q.startswith("merged") for q in c["steps"])
@@ -523,6 +561,24 @@ def _obs_arr(t, sizes):
     return out, d, data
 
 
+def _scalar(kind, v):
+    """python number, NumPy scalar of the named type, or an element picked out of an int64 array"""
+    if kind == "py":
+        return v
+    if kind == "elem":
+        return np.array([v, 40])[0]
+    return getattr(np, kind)(v)
+
+
+def _arr_obs(d, names):
+    """dtype and exact values (bit patterns for floats) of per-chromosome arrays"""
+    out = []
+    for n in names:
+        a = np.asarray(d[n])
+        out.append([str(a.dtype), _out(None, a)])
+    return out
+
+
 def _impl_alias(c):
     """build an array, look at it, let the caller edit the table it was built from (in place), look again; then
     scribble over the arrays / records the array handed out and look a third time. A second genome with other sizes
@@ -626,6 +682,36 @@ def _impl_raw(c):
     try:
         if op == "alias":
             return _impl_alias(c)
+        if op == "big":
+            sizes = c["sizes"]
+            names = ["chr%d" % (i + 1) for i in range(len(sizes))]
+            genome = m["bnp"].Genome.from_dict(_sizes_dict(sizes))
+            t = genome.get_track(_bg(c["recs"], "int"))
+            d = t.get_data()
+            out = {"data": [[names.index(n), int(a), int(b), int(v)] for n, a, b, v in
+                            zip(d.chromosome.tolist(), d.start.tolist(), d.stop.tolist(), d.value.tolist())],
+                   "sum": int(np.sum(t)), "chrom_sums": [int(t[n].sum()) for n in names], "chrom_len": [int(len(t[n])) for n in names]}
+            rows = []
+            if c["ivs"]:
+                gi = genome.get_intervals(_ivtab([[r[0], r[1], r[2]] for r in c["ivs"]]))
+                rows = [[int(v) for v in row.to_array().tolist()] for row in t[gi]]
+            out["rows"] = rows
+            return out
+        if op == "narrow":
+            sizes = c["sizes"]
+            names = ["chr%d" % (i + 1) for i in range(len(sizes))]
+            genome = m["bnp"].Genome.from_dict(_sizes_dict(sizes))
+            recs = c["recs"]
+            bgt = _snap(m["BedGraph"]([names[r[0]] for r in recs], np.array([r[1] for r in recs], dtype=int),
+                                      np.array([r[2] for r in recs], dtype=int), np.array([r[3] for r in recs], dtype=c["dtype"])))
+            t = genome.get_track(bgt)
+            res = [_arr_obs(t.to_dict(), names)]
+            for f, side, kind, v in c["ops"]:
+                k = _scalar(kind, v)
+                with np.errstate(all="ignore"):
+                    r = _BIN[f](k, t) if side == "l" else _BIN[f](t, k)
+                res.append(_arr_obs(r.to_dict(), names))
+            return {"results": res}
         if op == "gi_seq":
             return _impl_gi_seq(c)
         if op == "rle_bedgraph":
@@ -791,6 +877,43 @@ def oracle(c):
         if any(not _ok_bedgraph(rs, sz) for rs, sz in zip(per, sizes)) or [r[0] for r in c["recs"]] != sorted(r[0] for r in c["recs"]):
             return SKIP
         return {"dict": [_out(c["kind"], _dense(rs, c["kind"], sz)) for rs, sz in zip(per, sizes)]}
+    if op == "big":
+        sizes = c["sizes"]
+        per = _split(sizes, c["recs"])
+        if any(not _ok_bedgraph(rs, sz) for rs, sz in zip(per, sizes)):
+            return SKIP
+        data, sums = [], []
+        for i, (rs, sz) in enumerate(zip(per, sizes)):      # sparse: the records and the zero runs between them
+            pos, tot = 0, 0
+            for _, a, b, v in rs:
+                tot += (b - a) * v
+            sums.append(tot)
+        rows = []
+        for ch, a, b in c["ivs"]:
+            row = [0] * (b - a)
+            for _, s_, e_, v in per[ch]:
+                for p in range(max(a, s_), min(b, e_)):
+                    row[p - a] = v
+            rows.append(row)
+        return {"sum": sum(sums), "chrom_sums": sums, "chrom_len": list(sizes), "rows": rows, "per": per}
+    if op == "narrow":
+        sizes = c["sizes"]
+        per = _split(sizes, c["recs"])
+        if not c["recs"] or any(not _ok_bedgraph(rs, sz) for rs, sz in zip(per, sizes)) or [r[0] for r in c["recs"]] != sorted(r[0] for r in c["recs"]):
+            return SKIP            # (an empty bedGraph carries no value dtype)
+        names = ["chr%d" % (i + 1) for i in range(len(sizes))]
+        dense = {}
+        for n, rs, sz in zip(names, per, sizes):
+            a = np.zeros(sz, dtype=c["dtype"])
+            for r in rs:
+                a[r[1]:r[2]] = np.array(r[3], dtype=c["dtype"])
+            dense[n] = a
+        res = [_arr_obs(dense, names)]
+        for f, side, kind, v in c["ops"]:
+            k = _scalar(kind, v)
+            with np.errstate(all="ignore"):
+                res.append(_arr_obs({n: (_BIN[f](k, dense[n]) if side == "l" else _BIN[f](dense[n], k)) for n in names}, names))
+        return {"results": res}
     if op == "alias":
         sizes = c["sizes"]
         if c["entry"] in ("mask", "pileup"):
@@ -923,6 +1046,22 @@ def agree(c, got, exp):
         return got["derived"] == exp["derived"] and got["other"] == exp["other"]
     if op == "gi_seq":
         return core.canon(got) == core.canon(exp)
+    if op == "narrow":
+        return core.canon(got) == core.canon(exp)
+    if op == "big":
+        for k in ("sum", "chrom_sums", "chrom_len", "rows"):
+            if got[k] != exp[k]:
+                return False
+        # the records tile every chromosome in order and carry the record values / zeros
+        pos = {}
+        for ch, a, b, v in got["data"]:
+            if a != pos.get(ch, 0) or b <= a:
+                return False
+            want = [r[3] for r in exp["per"][ch] if r[1] <= a and b <= r[2]]
+            if (want[0] if want else 0) != v or (not want and any(r[1] < b and a < r[2] for r in exp["per"][ch])):
+                return False
+            pos[ch] = b
+        return all(pos.get(i, 0) == sz for i, sz in enumerate(c["sizes"]))
     if op in ("rle_bedgraph", "from_intervals_arr"):
         return got["dense"] == exp["dense"]
     if op == "track_str":
